@@ -10,7 +10,7 @@ echo "Each change compiles and passes the repository's unedited test suite; 'rc=
 echo
 echo '| change | check | result | first violation |'
 echo '|---|---|---|---|'
-for d in seeded/S-*; do
+for d in seeded/S*-C*; do
   id=$(basename $d)
   for p in $(python3 -c "import json;print(' '.join(json.load(open('$d/meta.json'))['checks_expected_to_catch']))"); do
     line=$(scripts/seedrun.sh /verif/$d/patch.diff $tier $p 2>&1 | tail -1)
